@@ -40,6 +40,13 @@ def run(ctx):
     deep2 = [("dfs", 3000 if q else 400000, 2)]
     jobs += make_jobs(ctx, "set_lock", STRIPED_LF1, GROW_LF1) + make_jobs(ctx, "set_lock", STRIPED_SB2, GROW_SB2)
     jobs += make_jobs(ctx, "set_lock", STRIPED_LF1, DEEP_LF1, strat=deep2) + make_jobs(ctx, "set_lock", STRIPED_SB2, DEEP_SB2, strat=deep2)
+    # lock-based code: schedules that switch threads only at lock acquisitions and inside critical sections (--points locks) reach the
+    # "stalled between reading the table state and taking the lock, while another thread completes a whole resize" interleavings
+    # that uniform switching among all atomic accesses practically never produces (seeded change C16b)
+    lockpts = [("random", 150 if q else 6000, 0), ("pct", 60 if q else 3000, 0)]
+    RESIZE3 = ["ins:5,find:5|ins:1,ins:3,ins:7,ins:9,ins:11|ins:5,find:5;size", "ins:2,era:2,ins:2|ins:4,ins:6,ins:8,ins:10|era:2,ins:2,find:2;size"]
+    jobs += make_jobs(ctx, "set_lock", allv, ps + RESIZE3, strat=lockpts, extra_of=lambda v: ["--points", "locks"])
+    jobs += make_jobs(ctx, "set_lock", STRIPED_LF1, GROW_LF1, strat=lockpts, extra_of=lambda v: ["--points", "locks"]) + make_jobs(ctx, "set_lock", STRIPED_SB2, GROW_SB2, strat=lockpts, extra_of=lambda v: ["--points", "locks"])
     vlib.run_jobs(ctx, jobs)
     vlib.validate_histories(ctx, jobs, "LinSet", SC.consts(replace=False, ordered=False))
     ctx.impl_runs.append({"driver": "set_lock", "variants": allv, "programs": ps, "strategies": strategies(ctx)})
